@@ -490,6 +490,7 @@ fn gen_script(rng: &mut Rng, flavour: &str, stopper: bool) -> Vec<String> {
     for _ in 0..n {
         let w: [u32; 6] = if flavour == "c12" { [40, 14, if stopper { 6 } else { 0 }, 10, 20, 6] } else { [70, 8, if stopper { 3 } else { 0 }, 4, 10, 2] };
         let a = ["U", "H", "S", "E", "M", "R"][rng.weighted(&w)];
+        let a = if a == "R" && rng.chance(1, 3) { "RS" } else { a };
         s.push(a.to_string());
     }
     s
